@@ -27,6 +27,7 @@ func newModel(thorough bool) *chainprop.Model {
 		m.FullCeremony("ceremony(V2,N1,C1 answer)", []string{"V2", "N1", "C1"}, []string{"good", "good", "good"}, []string{"V2", "N1"}),
 	)
 	m.Singles(false)
+	m.TipsSingles() // every template once more with tips (tips are paid on top of amount and fee)
 	if thorough {
 		m.Pairs()
 	} else {
